@@ -417,7 +417,7 @@ func (c16) flagFlow(c *an.Ctx, seed *types.Var) {
 		idx int
 	}
 	flag := map[*types.Var]slot{}
-	for _, f := range p.Fns {
+	for _, f := range p.Units() {
 		if f.Sig == nil || f.Obj == nil {
 			continue
 		}
@@ -430,7 +430,7 @@ func (c16) flagFlow(c *an.Ctx, seed *types.Var) {
 	// closure: a bool param passed at a flag position is a flag
 	for changed := true; changed; {
 		changed = false
-		for _, f := range p.Fns {
+		for _, f := range p.Fns { // interprocedural rule: new helpers are ordinary links of the chain
 			if f.Body == nil || f.Pkg != p.Jet {
 				continue
 			}
@@ -473,11 +473,11 @@ func (c16) flagFlow(c *an.Ctx, seed *types.Var) {
 	c.Note("cache-flag parameters: %v", names)
 	// obligations at every call of a flag-carrying function
 	nSites := 0
-	for _, f := range p.Fns {
+	for _, f := range p.Fns { // interprocedural rule: new helpers are ordinary links of the chain
 		if f.Body == nil || f.Lit != nil && false {
 			continue
 		}
-		an.InspectOwn(f, func(n ast.Node) bool {
+		an.InspectBody(f, func(n ast.Node) bool {
 			call, ok := n.(*ast.CallExpr)
 			if !ok {
 				return true
@@ -549,7 +549,7 @@ func (c16) extensions(c *an.Ctx) {
 	p := c.P
 	info := p.Jet.TypesInfo
 	nLoops := 0
-	for _, f := range p.Fns {
+	for _, f := range p.Units() {
 		if f.Pkg != p.Jet || f.Body == nil {
 			continue
 		}
